@@ -1,0 +1,38 @@
+//go:build verif
+
+package getoptions
+
+import "io"
+
+// Verification hooks. Compiled only with the `verif` build tag; they expose
+// unexported pieces to the external verification harness and change no behaviour.
+
+// VerifPair mirrors optionPair.
+type VerifPair struct {
+	Option string
+	Args   []string
+}
+
+// VerifIsOption exposes the unexported token splitter.
+func VerifIsOption(s string, mode Mode) ([]VerifPair, bool) {
+	pairs, is := isOption(s, mode, false)
+	out := make([]VerifPair, 0, len(pairs))
+	for _, p := range pairs {
+		out = append(out, VerifPair{Option: p.Option, Args: p.Args})
+	}
+	return out, is
+}
+
+// VerifSetExitFn replaces the function called on the completion exit path and returns the previous one.
+func VerifSetExitFn(fn func(int)) func(int) {
+	old := exitFn
+	exitFn = fn
+	return old
+}
+
+// VerifSetCompletionWriter replaces the writer that receives completion results and returns the previous one.
+func VerifSetCompletionWriter(w io.Writer) io.Writer {
+	old := completionWriter
+	completionWriter = w
+	return old
+}
